@@ -140,6 +140,7 @@ class RecheckProp(Prop):
             kind, arg = rng.choice(damage_options(t["files"][f]["size"], P))
             damage.append({"file": f, "kind": kind, "arg": arg})
         return {"scaled": False, "extra_keys": rng.random() < 0.3, "rel_paths": rng.random() < 0.25,
+                "noise": rng.random() < 0.3, "via_symlink": rng.random() < 0.2,
                 "version": v, "meta_src": src, "P": P, "tree": t, "damage": damage,
                 "route": route or ("cli" if rng.random() < 0.15 else "lib"),
                 "path_mode": path_mode, "group": group or "none", "clauses": clauses,
